@@ -222,6 +222,34 @@ def _prep_capture(it, args):
     return {"phc_ok": SBool(it.run.ghost["phc"]["ok"]), "phc_rounds": SInt(it.run.ghost["phc"]["rounds"])}
 
 
+def _bsha_replay():
+    """executable specification: a record verifies iff bcrypt.checkpw(b64(HMAC-SHA256(key = the record's SALT FIELD, secret)),
+    '$type$rounds$' + salt field + digest field); records obtained from a genuine one by moving the salt/digest separator
+    (same concatenation, another salt field) are searched"""
+    from pyvc.replay import py_replay
+    ref = """
+import base64, hashlib, hmac, re, bcrypt
+from libpass.hashers.bcrypt import BcryptSHA256Hasher
+H = BcryptSHA256Hasher(rounds=4)
+GOOD = H.hash('pw')
+def ref(secret, record):
+    m = re.fullmatch(r'\\$bcrypt-sha256\\$v=2,t=(2[aby]),r=(\\d{1,2})\\$([./A-Za-z0-9]{11,64})\\$([./A-Za-z0-9]{16,86})', record)
+    if not m:
+        return False
+    key = base64.b64encode(hmac.new(m.group(3).encode(), secret.encode(), hashlib.sha256).digest())
+    try:
+        return bcrypt.checkpw(key, ('$%s$%02d$%s%s' % (m.group(1), int(m.group(2)), m.group(3), m.group(4))).encode())
+    except ValueError:
+        return False
+def moved(k):
+    head, salt, dig = GOOD.rsplit('$', 2)
+    both = salt + dig
+    return head + '$' + both[:22 + k] + '$' + both[22 + k:]
+"""
+    return py_replay(ref, "rec = moved(V['shift']); r = (H.verify(secret='pw', hash=rec), ref('pw', rec))", "exc is None and r[0] == r[1]", {"shift": 0},
+                     search=lambda v: [dict(v, shift=k) for k in (-3, -2, -1, 0, 1, 2, 3, 8)])
+
+
 BSELF = Obj(cls=(BP, "BcryptSHA256Hasher"), fields={"_rounds": Int(4, 31), "prefixes": (b"2b", b"2a", b"2y")})
 CONTRACTS += [
     Contract(
@@ -234,6 +262,7 @@ CONTRACTS += [
                       z3.Implies(it.run.ghost["phc"]["ok"], it.to_zbool(it.truth(env.lookup("result"))) == CHECKPW(
                           PREP(U8(it.run.ghost["phc"]["salt"]), _as_bytes(it, env.lookup("secret"))),
                           U8(BRENDER(it.run.ghost["phc"]["type"], it.run.ghost["phc"]["rounds"], it.run.ghost["phc"]["salt"], it.run.ghost["phc"]["hash"]))))))],
+        replay=_bsha_replay(),
         descr="every string, every secret",
     ),
     Contract(
